@@ -433,7 +433,7 @@ when_kernel Gzx.Gen.K02e.decodeC40Segment in
 theorem k_decodeC40Segment_eq (T : Tables) (hT : TablesAgree T) (fuel : Nat) (bs : List Nat) (hb : ∀ b ∈ bs, b < 256) (off : Nat)
     (hoff : off ≤ bs.length) (hf : bs.length + 2 ≤ fuel) (result fn : List Int) (a : Acc) (n : Nat) :
     match cSeg T false (bs.drop off) {} a n with
-    | .ok (a', n') => ∃ es, a' = Acc.emits a es ∧
+    | .ok (a', n') => ∃ es, cOut T false (bs.drop off) {} = .ok (es, n' - n) ∧ a' = Acc.emits a es ∧
         Gen.K02e.decodeC40Segment fuel (bytesI bs) (off : Int) 0 result fn
           = .ok ((emitsK (result, fn) es).1, false, ((off + (n' - n) : Nat) : Int), 0, (emitsK (result, fn) es).1, (emitsK (result, fn) es).2)
     | .error .format => ∃ r bo f, Gen.K02e.decodeC40Segment fuel (bytesI bs) (off : Int) 0 result fn = .ok (r, true, bo, 0, r, f)
@@ -456,7 +456,7 @@ theorem k_decodeC40Segment_eq (T : Tables) (hT : TablesAgree T) (fuel : Nat) (bs
   | ok p =>
     rw [hx] at this
     simp only [Except.map]
-    refine ⟨p.1, rfl, ?_⟩
+    refine ⟨p.1, by simp, rfl, ?_⟩
     simp only [CAgrees] at this
     rw [this]
     simp
@@ -507,7 +507,7 @@ when_kernel Gzx.Gen.K02e.decodeTextSegment in
 theorem k_decodeTextSegment_eq (T : Tables) (hT : TablesAgree T) (fuel : Nat) (bs : List Nat) (hb : ∀ b ∈ bs, b < 256) (off : Nat)
     (hoff : off ≤ bs.length) (hf : bs.length + 2 ≤ fuel) (result fn : List Int) (a : Acc) (n : Nat) :
     match cSeg T true (bs.drop off) {} a n with
-    | .ok (a', n') => ∃ es, a' = Acc.emits a es ∧
+    | .ok (a', n') => ∃ es, cOut T true (bs.drop off) {} = .ok (es, n' - n) ∧ a' = Acc.emits a es ∧
         Gen.K02e.decodeTextSegment fuel (bytesI bs) (off : Int) 0 result fn
           = .ok ((emitsK (result, fn) es).1, false, ((off + (n' - n) : Nat) : Int), 0, (emitsK (result, fn) es).1, (emitsK (result, fn) es).2)
     | .error .format => ∃ r bo f, Gen.K02e.decodeTextSegment fuel (bytesI bs) (off : Int) 0 result fn = .ok (r, true, bo, 0, r, f)
@@ -530,7 +530,7 @@ theorem k_decodeTextSegment_eq (T : Tables) (hT : TablesAgree T) (fuel : Nat) (b
   | ok p =>
     rw [hx] at this
     simp only [Except.map]
-    refine ⟨p.1, rfl, ?_⟩
+    refine ⟨p.1, by simp, rfl, ?_⟩
     simp only [CAgrees] at this
     rw [this]
     simp
